@@ -114,8 +114,9 @@ macro_rules! width_ops {
                     decrc::$take_from_bytes::<DynOwned>(x, CRCS[a].digest()).map(|(d, rem)| Taken {
                         val: d.0,
                         rem: rem.len(),
-                        suffix: rem.len() <= x.len()
-                            && rem.as_ptr_range().end == x.as_ptr_range().end,
+                        // an empty remainder says "nothing after the checksum", wherever it points
+                        suffix: rem.is_empty()
+                            || (rem.len() <= x.len() && rem.as_ptr_range().end == x.as_ptr_range().end),
                     })
                 })
             }
@@ -189,7 +190,7 @@ mod w32root {
             postcard::take_from_bytes_crc32::<DynOwned>(x, w32::CRCS[a].digest()).map(|(d, rem)| Taken {
                 val: d.0,
                 rem: rem.len(),
-                suffix: rem.len() <= x.len() && rem.as_ptr_range().end == x.as_ptr_range().end,
+                suffix: rem.is_empty() || (rem.len() <= x.len() && rem.as_ptr_range().end == x.as_ptr_range().end),
             })
         })
     }
